@@ -67,3 +67,30 @@ func (self *Pipestance) VerifC10RuntimeForkIds(outs map[string][]byte,
 	}
 	return ids, dirs, nil
 }
+
+// VerifC10MetadataNames creates the named (empty) metadata files in the
+// metadata directory of the first fork of node fqid, reloads the fork's
+// metadata cache from disk and returns Metadata.serializeState().Names as is.
+func (self *Pipestance) VerifC10MetadataNames(fqid string,
+	files []string) (names []string, err error) {
+	defer func() {
+		if r := recover(); r != nil {
+			err = fmt.Errorf("panic: %v", r)
+		}
+	}()
+	n := self.getNode().top.allNodes[fqid]
+	if n == nil || len(n.forks) == 0 {
+		return nil, fmt.Errorf("no node with a fork: %s", fqid)
+	}
+	md := n.forks[0].metadata
+	if err := os.MkdirAll(md.path, 0o755); err != nil {
+		return nil, err
+	}
+	for _, f := range files {
+		if err := os.WriteFile(path.Join(md.path, "_"+f), nil, 0o644); err != nil {
+			return nil, err
+		}
+	}
+	md.loadCache()
+	return md.serializeState().Names, nil
+}
